@@ -108,7 +108,24 @@ fn dist_of(d: &Value, k: usize) -> Option<Dist> {
     Some(Dist::new(t, start, max))
 }
 
-fn build(case: &Value, k: usize) -> Machine {
+/// out-of-range targets that are not the two pseudo-state constants: the top of the usize range,
+/// values whose low 32 bits alias a pseudo-state, neighbours of the constants
+const HUGE_TARGETS: [usize; 12] = [
+    STATE_MAX,
+    usize::MAX,
+    usize::MAX - 1,
+    (1usize << 32) | STATE_END,
+    (1usize << 32) | STATE_SIGNAL,
+    STATE_END + 1,
+    1usize << 32,
+    1usize << 63,
+    usize::MAX - 2,
+    (1usize << 63) | STATE_SIGNAL,
+    STATE_END + 2,
+    (0xFFFF_FFFFusize << 32) | STATE_END,
+];
+
+fn build(case: &Value, k: usize, idx: usize) -> Machine {
     let n = case["nstates"].as_u64().unwrap() as usize;
     let ok = Dist::new(DistType::Uniform { low: 2.0, high: 2.0 }, 0.0, 0.0);
     let d = dist_of(&case["dist"], k);
@@ -123,8 +140,8 @@ fn build(case: &Value, k: usize) -> Machine {
                 let to = match t["to"].as_str().unwrap() {
                     "s0" => 0,
                     "s1" => 1,
-                    "oob" => n,
-                    "huge" => STATE_MAX,
+                    "oob" => n + (idx + k) % 2 * (k + 1),
+                    "huge" => pick(&HUGE_TARGETS, idx * 3 + k),
                     "END" => STATE_END,
                     "SIGNAL" => STATE_SIGNAL,
                     o => panic!("unknown target {o}"),
@@ -178,7 +195,7 @@ fn main() {
             writeln!(f, "{}", json!({"k": "reset", "id": i})).unwrap();
         }
         for k in 0..3usize {
-            let m = build(&case, k);
+            let m = build(&case, k, i);
             let validate_ok = catch_unwind(AssertUnwindSafe(|| m.validate().is_ok()));
             let new_ok = catch_unwind(AssertUnwindSafe(|| {
                 Machine::new(
